@@ -108,10 +108,11 @@ func init() {
 	reg(&Ind{
 		Name: "AwesomeOscillator", In: "hl", NOut: 1,
 		Make: func(cfg []int) any {
-			return &momentum.AwesomeOscillator[float64]{
-				ShortSma: trend.NewSmaWithPeriod[float64](cfg[0]),
-				LongSma:  trend.NewSmaWithPeriod[float64](cfg[1]),
-			}
+			// the constructor first, then the exported fields: the way a user configures it
+			a := momentum.NewAwesomeOscillator[float64]()
+			a.ShortSma = trend.NewSmaWithPeriod[float64](cfg[0])
+			a.LongSma = trend.NewSmaWithPeriod[float64](cfg[1])
+			return a
 		},
 		Idle: func(inst any, cfg []int) int { return inst.(*momentum.AwesomeOscillator[float64]).IdlePeriod() },
 		Run: func(inst any, in []<-chan float64) []<-chan float64 {
@@ -129,11 +130,10 @@ func init() {
 	reg(&Ind{
 		Name: "ChaikinOscillator", In: "hlcv", NOut: 2,
 		Make: func(cfg []int) any {
-			return &momentum.ChaikinOscillator[float64]{
-				Ad:       volume.NewAd[float64](),
-				ShortEma: trend.NewEmaWithPeriod[float64](cfg[0]),
-				LongEma:  trend.NewEmaWithPeriod[float64](cfg[1]),
-			}
+			c := momentum.NewChaikinOscillator[float64]()
+			c.ShortEma = trend.NewEmaWithPeriod[float64](cfg[0])
+			c.LongEma = trend.NewEmaWithPeriod[float64](cfg[1])
+			return c
 		},
 		Idle: func(inst any, cfg []int) int { return inst.(*momentum.ChaikinOscillator[float64]).IdlePeriod() },
 		Run: func(inst any, in []<-chan float64) []<-chan float64 {
@@ -167,15 +167,15 @@ func init() {
 	reg(&Ind{
 		Name: "IchimokuCloud", In: "hlc", NOut: 5,
 		Make: func(cfg []int) any {
-			return &momentum.IchimokuCloud[float64]{
-				ConversionMax: trend.NewMovingMaxWithPeriod[float64](cfg[0]),
-				ConversionMin: trend.NewMovingMinWithPeriod[float64](cfg[0]),
-				BaseMax:       trend.NewMovingMaxWithPeriod[float64](cfg[1]),
-				BaseMin:       trend.NewMovingMinWithPeriod[float64](cfg[1]),
-				LeadingMax:    trend.NewMovingMaxWithPeriod[float64](cfg[2]),
-				LeadingMin:    trend.NewMovingMinWithPeriod[float64](cfg[2]),
-				LaggingPeriod: cfg[1],
-			}
+			ic := momentum.NewIchimokuCloud[float64]()
+			ic.ConversionMax = trend.NewMovingMaxWithPeriod[float64](cfg[0])
+			ic.ConversionMin = trend.NewMovingMinWithPeriod[float64](cfg[0])
+			ic.BaseMax = trend.NewMovingMaxWithPeriod[float64](cfg[1])
+			ic.BaseMin = trend.NewMovingMinWithPeriod[float64](cfg[1])
+			ic.LeadingMax = trend.NewMovingMaxWithPeriod[float64](cfg[2])
+			ic.LeadingMin = trend.NewMovingMinWithPeriod[float64](cfg[2])
+			ic.LaggingPeriod = cfg[1]
+			return ic
 		},
 		Idle: func(inst any, cfg []int) int { return inst.(*momentum.IchimokuCloud[float64]).IdlePeriod() },
 		Run: func(inst any, in []<-chan float64) []<-chan float64 {
@@ -229,11 +229,11 @@ func init() {
 	reg(&Ind{
 		Name: "Ppo", In: "c", NOut: 3,
 		Make: func(cfg []int) any {
-			return &momentum.Ppo[float64]{
-				ShortEma:  trend.NewEmaWithPeriod[float64](cfg[0]),
-				LongEma:   trend.NewEmaWithPeriod[float64](cfg[1]),
-				SignalEma: trend.NewEmaWithPeriod[float64](cfg[2]),
-			}
+			x := momentum.NewPpo[float64]()
+			x.ShortEma = trend.NewEmaWithPeriod[float64](cfg[0])
+			x.LongEma = trend.NewEmaWithPeriod[float64](cfg[1])
+			x.SignalEma = trend.NewEmaWithPeriod[float64](cfg[2])
+			return x
 		},
 		Idle: func(inst any, cfg []int) int { return inst.(*momentum.Ppo[float64]).IdlePeriod() },
 		Run: func(inst any, in []<-chan float64) []<-chan float64 {
@@ -267,11 +267,11 @@ func init() {
 	reg(&Ind{
 		Name: "Pvo", In: "v", NOut: 3,
 		Make: func(cfg []int) any {
-			return &momentum.Pvo[float64]{
-				ShortEma:  trend.NewEmaWithPeriod[float64](cfg[0]),
-				LongEma:   trend.NewEmaWithPeriod[float64](cfg[1]),
-				SignalEma: trend.NewEmaWithPeriod[float64](cfg[2]),
-			}
+			x := momentum.NewPvo[float64]()
+			x.ShortEma = trend.NewEmaWithPeriod[float64](cfg[0])
+			x.LongEma = trend.NewEmaWithPeriod[float64](cfg[1])
+			x.SignalEma = trend.NewEmaWithPeriod[float64](cfg[2])
+			return x
 		},
 		Idle: func(inst any, cfg []int) int { return inst.(*momentum.Pvo[float64]).IdlePeriod() },
 		Run: func(inst any, in []<-chan float64) []<-chan float64 {
@@ -348,11 +348,11 @@ func init() {
 	reg(&Ind{
 		Name: "StochasticOscillator", In: "hlc", NOut: 2,
 		Make: func(cfg []int) any {
-			return &momentum.StochasticOscillator[float64]{
-				Max: trend.NewMovingMaxWithPeriod[float64](cfg[0]),
-				Min: trend.NewMovingMinWithPeriod[float64](cfg[0]),
-				Sma: trend.NewSmaWithPeriod[float64](cfg[1]),
-			}
+			x := momentum.NewStochasticOscillator[float64]()
+			x.Max = trend.NewMovingMaxWithPeriod[float64](cfg[0])
+			x.Min = trend.NewMovingMinWithPeriod[float64](cfg[0])
+			x.Sma = trend.NewSmaWithPeriod[float64](cfg[1])
+			return x
 		},
 		Idle: func(inst any, cfg []int) int { return inst.(*momentum.StochasticOscillator[float64]).IdlePeriod() },
 		Run: func(inst any, in []<-chan float64) []<-chan float64 {
@@ -392,10 +392,10 @@ func init() {
 	reg(&Ind{
 		Name: "WilliamsR", In: "hlc", NOut: 1,
 		Make: func(cfg []int) any {
-			return &momentum.WilliamsR[float64]{
-				Max: trend.NewMovingMaxWithPeriod[float64](cfg[0]),
-				Min: trend.NewMovingMinWithPeriod[float64](cfg[0]),
-			}
+			x := momentum.NewWilliamsR[float64]()
+			x.Max.Period = cfg[0]
+			x.Min.Period = cfg[0]
+			return x
 		},
 		Idle: func(inst any, cfg []int) int { return inst.(*momentum.WilliamsR[float64]).IdlePeriod() },
 		Run: func(inst any, in []<-chan float64) []<-chan float64 {
